@@ -20,6 +20,7 @@ ENGINES = {
     "C27": "e7_ns",
     "C14": "e6_loops",
     "C37": "e8_omp",
+    "C45": "riders",
 }
 
 
